@@ -174,10 +174,11 @@ contract(SCH + "._Trap", params=dict(self=SCHT, K=KEYT, keyword=TBytes), returns
 contract(SCH + "._Enc", modifies_ghost=["rng_n"], params=dict(self=SCHT, K=KEYT, database=DBT), returns=EDBT,
          requires=VALID_CFG + ["len(K.K) == self.config.param_lambda", "valid_db(database, self.config.param_identifier_size)"],
          ensures=["pk_repr(dmap(result.D), self.config.param_lambda, K.K, database, self.config.param_B, self.config.param_identifier_size)",
-                  "len(result.D) == blocks_upto(database, len(database), self.config.param_B)"],
+                  "len(result.D) == blocks_upto(database, len(database), self.config.param_B)",
+                  "asc_bl(dkeys(result.D), len(result.D))"],      # C06: labels in ascending order whatever the input order
          locals={"L": PL},
-         lemmas=["A2_prf_injective", "A6_prf_len", "lmapf_frame", "distinct_frame", "dec_enc"],
-         loops={0: dict(invariant=[
+         lemmas=["A2_prf_injective", "A6_prf_len", "lmapf_frame", "distinct_frame", "dec_enc", "firsts_asc", "B3_sort_len"],
+         loops={0: dict(exit_hints=[("firsts_asc", ["sorted_pairs(L)", "len(L)"])], invariant=[
                     "pk_inv(lmapf(L, len(L)), " + CFGP.format(K="K", DB="database", a="it", b="0") + ")",
                     "distinct_upto(L, len(L))", "len(L) == blocks_upto(database, it, self.config.param_B)"]),
                 1: dict(invariant=[
